@@ -11,6 +11,7 @@ W=/tmp/wt-$P
 [ "$SUF" = "f" ] && W=/tmp/w6-$P
 [ "$SUF" = "g" ] && W=/tmp/w7-$P
 [ "$SUF" = "h" ] && W=/tmp/w8-$P
+[ "$SUF" = "i" ] && W=/tmp/w9-$P
 cd "$W" || exit 2
 [ -f SEEDED/patch.diff ] || { echo "no patch.diff"; exit 2; }
 # git stash is shared between worktrees (agents ran concurrently): start from a clean src and apply the recorded patch
